@@ -332,7 +332,7 @@ Proof. exact (ShapesCert.support_cert_scaled_sound S w s d dc c tau). Qed.
 Print Assumptions C03_support_cert_scaled_sound.
 
 Theorem C03_membership_cert_sound S w p tau :
-  Checker.Shapes.in_shape_tol S w p tau = true ->
+  ShapesCert.in_shape_tolD S w p tau = true ->
   exists q, Checker.Shapes.sem S q /\ norm (vsub (Checker.Shapes.v2r p) q) <= Q2R tau.
-Proof. exact (Checker.Shapes.in_shape_tol_sound S w p tau). Qed.
+Proof. exact (ShapesCert.in_shape_tolD_sound S w p tau). Qed.
 Print Assumptions C03_membership_cert_sound.
